@@ -44,6 +44,7 @@ type crashImage struct {
 	nAsked int
 	fmvLo  int
 	fmvHi  int
+	wal    walCfg
 }
 
 type crasher struct {
@@ -192,7 +193,7 @@ func (c *crasher) snap(i int64, opdesc, cls string) {
 			break
 		}
 		keep, cnt := keepFn(sv, i)
-		img := &crashImage{fs: c.mem.VerifCrashClone(keep), idx: i, op: opdesc, surv: sv, step: c.r.stepIdx, lo: lo}
+		img := &crashImage{fs: c.mem.VerifCrashClone(keep), idx: i, op: opdesc, surv: sv, step: c.r.stepIdx, lo: lo, wal: c.r.walConfig()}
 		img.nAsked, img.nKept = cnt[0], cnt[1]
 		imgs = append(imgs, img)
 		c.taken++
@@ -345,6 +346,7 @@ func (r *Runner) checkImage(img *crashImage) (int, error) {
 		img.idx, img.op, img.step, img.surv, img.nKept, img.nAsked)
 	lg := &recLogger{}
 	opts := BuildOptions(r.Plan.Opt, img.fs, nil, lg)
+	img.wal.apply(opts, r.Dir, img.fs)
 	db, err := pebble.Open(r.Dir, opts)
 	if err != nil {
 		return 0, fmt.Errorf("%s: reopening fails: %v", where, err)
